@@ -24,15 +24,16 @@ Definition group := option (list gpart).
 Definition handler := (N * group)%type.
 Definition pparam := (bytes * nat)%type.   (* pathParam{name, idx} *)
 
-(* params: the Go slice is nil exactly when it is empty (only [append] builds it), so
-   [n.params == nil] is [params = []]. lits: the Go map nodes (keys unique). *)
+(* params: None = not set yet (paramsSet = false); Some ps = set (ps = [] is the nil slice of a
+   pattern without $-placeholders).  lits: the Go map nodes (keys unique). *)
 Inductive node :=
-  Node (hs : option handler) (params : list pparam) (lits : list (bytes * node))
+  Node (hs : option handler) (params : option (list pparam)) (lits : list (bytes * node))
        (param wild : option node) (mounted : bool) (listeners : list lid).
 
-Definition empty_node : node := Node None [] [] None None false [].
+Definition empty_node : node := Node None None [] None None false [].
 Definition node_hs (n : node) := let 'Node hs _ _ _ _ _ _ := n in hs.
 Definition node_params (n : node) := let 'Node _ ps _ _ _ _ _ := n in ps.
+Definition node_plist (n : node) : list pparam := match node_params n with Some l => l | None => [] end.
 Definition node_lits (n : node) := let 'Node _ _ l _ _ _ _ := n in l.
 Definition node_param (n : node) := let 'Node _ _ _ p _ _ _ := n in p.
 Definition node_wild (n : node) := let 'Node _ _ _ _ w _ _ := n in w.
@@ -138,8 +139,15 @@ Fixpoint params_eq (a b : list pparam) : bool :=
 Definition set_params (n : node) (ps : list pparam) : option node :=
   let 'Node hs old lits pa wi mo ls := n in
   match old with
-  | [] => Some (Node hs ps lits pa wi mo ls)
-  | _ => if Nat.eqb (length old) (length ps) && params_eq ps old then Some n else None
+  | None => Some (Node hs (Some ps) lits pa wi mo ls)
+  | Some o => if Nat.eqb (length o) (length ps) && params_eq ps o then Some n else None
+  end.
+(* before fix de9a2b8: nil params counted as "not set" *)
+Definition set_params_v0 (n : node) (ps : list pparam) : option node :=
+  let 'Node hs old lits pa wi mo ls := n in
+  match old with
+  | None | Some [] => Some (Node hs (Some ps) lits pa wi mo ls)
+  | Some o => if Nat.eqb (length o) (length ps) && params_eq ps o then Some n else None
   end.
 
 (* ---- group.go parseGroup: a character-level state machine ----
@@ -250,6 +258,15 @@ Definition listen_fin (l : lid) (_ : bool) (n : node) (ps : list pparam) (_ : na
 Definition add_listener (root : node) (pattern : bytes) (l : lid) : outcome node :=
   fetch_go (listen_fin l) None (split_pattern pattern) 0 0 [] false root.
 
+(* AddListener before fix de9a2b8 (refutation witness only) *)
+Definition listen_fin_v0 (l : lid) (_ : bool) (n : node) (ps : list pparam) (_ : nat) : outcome node :=
+  match set_params_v0 n ps with
+  | None => Panic EParams n
+  | Some n' => Ok (add_ls n' l)
+  end.
+Definition add_listener_v0 (root : node) (pattern : bytes) (l : lid) : outcome node :=
+  fetch_go (listen_fin_v0 l) None (split_pattern pattern) 0 0 [] false root.
+
 (* Mount's use of fetch: n != sub.root  <->  the mount node was not placed *)
 Definition mount_fin (fresh : bool) (n : node) (_ : list pparam) (_ : nat) : outcome node :=
   if fresh then Ok n else Panic EMountExists n.
@@ -271,7 +288,7 @@ Fixpoint read_params (all : list bytes) (mi : nat) (ps : list pparam) : option (
     end
   end.
 Definition hit (all : list bytes) (n : node) (mi : nat) : mres :=
-  match read_params all mi (node_params n) with
+  match read_params all mi (node_plist n) with
   | Some m => MHit (node_hs n) (node_ls n) m mi
   | None => MPanic
   end.
@@ -303,29 +320,35 @@ Fixpoint strip_prefix (p s : bytes) : option bytes :=
   | a :: p', b :: s' => if a =? b then strip_prefix p' s' else None
   | _ :: _, [] => None
   end.
-(* the m.path block: None = return nil, Some subrname otherwise *)
-Definition strip_path (path rname : bytes) : option bytes :=
+(* the m.path block and the root test:
+   SNil = return nil; SRoot = the name is the mux path itself ("" for a mux without path):
+   the root pattern; SName sub = match the tokens of sub (sub = "" after "<path>." is the
+   one-token name [""]).
+   [v0] = before fix 4459494: an empty remainder was always taken for the root pattern. *)
+Inductive stripped := SNil | SRoot | SName (sub : bytes).
+Definition strip_path_gen (v0 : bool) (path rname : bytes) : stripped :=
   match path with
-  | [] => Some rname
+  | [] => match rname with [] => SRoot | _ => SName rname end
   | _ =>
-    if Nat.eqb (length path) (length rname) then (if beq path rname then Some [] else None)
+    if Nat.eqb (length path) (length rname) then (if beq path rname then SRoot else SNil)
     else match strip_prefix path rname with
-         | Some (c :: r) => if c =? dot then Some r else None
-         | _ => None
+         | Some (c :: r) => if c =? dot then (if v0 && is_nil r then SRoot else SName r) else SNil
+         | _ => SNil
          end
   end.
+Definition strip_path := strip_path_gen false.
 
-Definition get_handler_node (path : bytes) (root : node) (rname : bytes) : lres :=
-  match strip_path path rname with
-  | None => LNone
-  | Some [] =>
+Definition get_handler_node_gen (v0 : bool) (path : bytes) (root : node) (rname : bytes) : lres :=
+  match strip_path_gen v0 path rname with
+  | SNil => LNone
+  | SRoot =>
     match node_hs root with
     | None => LNone
     | Some (hid, g) => match group_to_string rname [] g with
                        | Some s => LHit hid (node_ls root) [] s
                        | None => LPanic end
     end
-  | Some sub =>
+  | SName sub =>
     let toks := tokens sub in
     match match_node toks root toks 0 0 with
     | MNo => LNone
@@ -338,6 +361,8 @@ Definition get_handler_node (path : bytes) (root : node) (rname : bytes) : lres 
       end
     end
   end.
+Definition get_handler_node := get_handler_node_gen false.
+Definition get_handler_node_v0dot := get_handler_node_gen true.
 
 (* ---- ValidateListeners: no node with listeners and without handler ---- *)
 Fixpoint validate_node (n : node) : bool :=
